@@ -281,6 +281,8 @@ def main_for(prop, argv, extra_items=()):
     spec = SPECS[prop]
     n = spec["n_quick"] if tier == "quick" else spec["n_thorough"]
     rep = common.Report(prop)
+    from checks import minimise as _MIN
+    rep.minimiser = lambda f: _MIN.scenario(f, lambda scn, seed: check(prop, scn, seed))
     items = list(extra_items) + list(range(n))
     if prop == "C06":
         from gen import corpus
@@ -307,7 +309,7 @@ def replay(prop, path):
         rec = json.load(f)
     r = check(prop, rec["scenario"], rec["seed"])
     same = [f for f in r["findings"] if f["rule"] == rec["rule"]]
-    print("replay %s: %s" % (path, "REPRODUCED rule=%s" % rec["rule"] if same else "not reproduced"))
+    print("replay %s: %s" % (path, "REPRODUCED rule=%s%s" % (rec["rule"], common.digest_note(rec, same)) if same else "not reproduced"))
     for f in same[:1]:
         print("  ", str(f["detail"])[:500])
     return 1 if same else 0
